@@ -210,6 +210,11 @@ func (cs *clientStream) CloseSend() error {
 			return nil
 		}
 	}
+	if err != nil {
+		// As in SendMsg: the stream is aborted. The generated code gives the
+		// call up on this error, and nobody else would release the stream.
+		cs.teardown(false)
+	}
 	return err
 }
 
